@@ -88,7 +88,7 @@ def oid_str(arcs):
     return ".".join(str(a) for a in arcs)
 
 
-def decode_oid_content(b):
+def decode_oid_content(b, strict=True):
     """Canonical decode of OID content -> arcs tuple; raises StrictError."""
     if not b:
         raise StrictError("empty oid")
@@ -96,7 +96,7 @@ def decode_oid_content(b):
     v = 0
     started = False
     for c in b:
-        if not started and c == 0x80:
+        if strict and not started and c == 0x80:
             raise StrictError("non-minimal arc")
         started = True
         v = (v << 7) | (c & 0x7F)
@@ -321,7 +321,7 @@ def _parse_pdu_into(r, data, node, strict):
             raise StrictError("varbind must have 2 fields")
         expect(parts[0], 0x06)
         r.oid_contents.append(parts[0].content)
-        r.oids.append(decode_oid_content(parts[0].content) if strict else None)
+        r.oids.append(decode_oid_content(parts[0].content, strict))
         r.values.append((parts[1].tag, parts[1].content))
 
 
